@@ -288,7 +288,7 @@ func (f *Frame) unop(in *ssa.UnOp, st *State, reach Term) {
 			f.vals[in] = app(x.Sort, "bvneg", x)
 		} else if x.Sort == SInt {
 			r := app(SInt, "-", x)
-			if c.checkOvf {
+			if c.checkOvf && f.ownCode() {
 				c.oblige("overflow", f.oname("overflow", in), reach, c.typeRange(r, in.Type()), f.pos(in))
 			}
 			f.vals[in] = r
